@@ -37,7 +37,9 @@ Pow(b, e) == IF e = 0 THEN 1 ELSE b * Pow(b, e - 1)
 \* purity ("behave as pure functions"): one value v, made by an expression the reader / evaluator builds, is
 \* passed to the same builtin twice with different other arguments: both results are the model's and v is intact
 P2A == <<"[1 2 3]", "'(1 2 3)", "(rest [0 1 2 3])", "(subvec [1 2 3 4 5] 0 3)", "(range 0 5)", "(map inc [0 1 2])",
-         "(vec '(1 2 3))", "(concat [1 2] [3])", "{:a 1 :c 3}", "#{:a :c}", "(conj [1 2] 3)", "(cons 1 '(2 3))">>
+         "(vec '(1 2 3))", "(concat [1 2] [3])", "{:a 1 :c 3}", "#{:a :c}", "(conj [1 2] 3)", "(cons 1 '(2 3))",
+         \* EMPTY collections made along different construction paths
+         "(set nil)", "(set [])", "(hash-set)", "(hash-map)", "(dissoc {:a 1} :a)", "(rest [1])", "(seq [])">>
 P2B == <<"[4]", "4", "'(5 6)", ":a", "0", "{:b 2}", "nil", "[:c 7]", "1", "inc">>
 ASSUME TLCSet(6, Norm([k \in 1..Len(P2A) |-> LET r == Ev(Parse(P2A[k]), 1, Base) IN
                                                IF r.k = "val" THEN r.v ELSE Assert(FALSE, <<"P2A", k, r.k>>)]))
